@@ -32,22 +32,23 @@ pub enum Node {
     Number(i64),
 }
 
-fn gcd(expr1: i64, expr2: i64) -> i64 {
+fn gcd(expr1: i64, expr2: i64) -> Option<i64> {
     let mut a = expr1;
     let mut b = expr2;
     while b != 0 {
-        let remainder = a % b;
-        a = expr2;
+        let remainder = a.wrapping_rem(b);
+        a = b;
         b = remainder;
     }
-    a.abs()
+    a.checked_abs()
 }
 
-fn lcm(expr1: i64, expr2: i64) -> i64 {
+fn lcm(expr1: i64, expr2: i64) -> Option<i64> {
     if expr1 == 0 || expr2 == 0 {
-        return 0;
+        return Some(0);
     }
-    (expr1 / gcd(expr1, expr2) * expr2).abs()
+    let g = gcd(expr1, expr2)?;
+    (expr1.checked_div(g)?).checked_mul(expr2)?.checked_abs()
 }
 
 pub fn eval(expr: Node) -> Result<i64, Box<dyn error::Error>> {
@@ -171,14 +172,19 @@ pub fn eval(expr: Node) -> Result<i64, Box<dyn error::Error>> {
                 let mut result: Option<i64> = None;
                 for arg in <Vec<Node> as Clone>::clone(&args).into_iter() {
                     let right_art = eval(arg)?;
-                    result = result
-                        .map(|left_arg| Some(gcd(left_arg, right_art)))
-                        .unwrap_or(Some(right_art));
+                    result = match result {
+                        Some(left_arg) => {
+                            Some(gcd(left_arg, right_art).ok_or("Integer overflow in gcd")?)
+                        }
+                        None => Some(right_art),
+                    };
                 }
                 Ok(result.unwrap())
             } else {
                 match args.first() {
-                    Some(arg) => Ok(eval((*arg).clone())?),
+                    Some(arg) => eval((*arg).clone())?
+                        .checked_abs()
+                        .ok_or_else(|| "Integer overflow in gcd".into()),
                     None => Ok(0),
                 }
             }
@@ -188,14 +194,19 @@ pub fn eval(expr: Node) -> Result<i64, Box<dyn error::Error>> {
                 let mut result: Option<i64> = None;
                 for arg in <Vec<Node> as Clone>::clone(&args).into_iter() {
                     let right_art = eval(arg)?;
-                    result = result
-                        .map(|left_arg| Some(lcm(left_arg, right_art)))
-                        .unwrap_or(Some(right_art));
+                    result = match result {
+                        Some(left_arg) => {
+                            Some(lcm(left_arg, right_art).ok_or("Integer overflow in lcm")?)
+                        }
+                        None => Some(right_art),
+                    };
                 }
                 Ok(result.unwrap())
             } else {
                 match args.first() {
-                    Some(arg) => Ok(eval((*arg).clone())?),
+                    Some(arg) => eval((*arg).clone())?
+                        .checked_abs()
+                        .ok_or_else(|| "Integer overflow in lcm".into()),
                     None => Ok(0),
                 }
             }
